@@ -58,8 +58,33 @@ def scratch():
 def cases(draw):
     mi = draw(M.model_and_instance(OPTS))
     mi["cfg"] = draw(c01.configs(M.model_uris(mi["spec"], mi["inst"])))
-    mi["decorate"] = draw(st.sampled_from([None, None, "comments", "pi", "both", "comment-in-text", "pi-in-text"]))
+    mi["decorate"] = draw(st.sampled_from([None, None, "comments", "pi", "both", "comment-in-text", "pi-in-text", "shadow", "shadow"]))
+    if mi["decorate"] == "shadow":
+        mi["tape"] = draw(st.lists(st.integers(0, 11), min_size=8, max_size=32))
     return mi
+
+
+def shadowed(spec, case, cfg, xml):
+    from vlib import expect as E
+    from vlib import rewrite as RW
+    try:
+        root = I.parse_strict(xml)
+        exp = E.Reader(spec, cfg["ignore_default_attributes"]).document(case["inst"])
+        tree = RW.annotate(spec, exp, root)
+        original = {}
+        for el in root.iter("*"):
+            for p, u in el.nsmap.items():
+                if p:
+                    original.setdefault(u, p)
+        rw = RW.Rewriter(case["tape"], ["shadow!", "late-declarations"], None)
+        data = rw.document(tree, original)
+        if "shadow" not in rw.applied:
+            return None
+        if RW.same(tree, RW.annotate(spec, exp, etree.fromstring(data, I.STRICT))):
+            raise RuntimeError("rewriter changed the infoset")
+        return data.decode("utf-8")
+    except (ValueError, LookupError, StopIteration):
+        return None
 
 
 def decorate(xml, how):
@@ -158,9 +183,14 @@ def _execute(case, col, model):
         fails.append(Failure("tree-serializer-differs", f"{I.diff(canon['lxml'], canon['tree'])}\nlxml: {outs['lxml']}\ntree: {etree.tostring(outs['tree'], encoding='unicode')}\nmodel:\n{model.src}", case))
 
     # ---- handlers x sources ------------------------------------------------
-    doc = decorate(outs["lxml"], case["decorate"])
-    if case["decorate"]:
-        col.label("decorated:" + case["decorate"])
+    if case["decorate"] == "shadow":
+        # the same document with prefixes re-bound for the extent of single elements (vlib/rewrite.py, kinds shadow + late-declarations)
+        doc = shadowed(spec, case, cfg, outs["lxml"]) or outs["lxml"]
+        col.label("decorated:shadow" if doc is not outs["lxml"] else "decorated:shadow-not-applicable")
+    else:
+        doc = decorate(outs["lxml"], case["decorate"])
+        if case["decorate"]:
+            col.label("decorated:" + case["decorate"])
     data = doc.encode("utf-8")
     if doc.lstrip().startswith("<?xml"):
         doc_text = doc
